@@ -17,7 +17,7 @@ def fam(name, scripts, tier='quick', witness=False, w=2, opts=None, **kw):
         defs.append('%s=%s' % (k, v))
     if witness:
         defs.append('WITNESS=1')
-    o = {'max_viol': 400, 'time_limit': 200 if tier == 'quick' else 2400}
+    o = {'max_viol': 400, 'time_limit': 420 if tier == 'quick' else 2400}
     o.update(opts or {})
     return Family(name + ('-witness' if witness else ''), 'h_sim.c', 'h_sim', defs, opts=o, tier=tier, witness=witness, weight=w, validate=3)
 
@@ -122,6 +122,10 @@ FAMILIES['C08'] = [
     fam('buffer-chain-3', ['BPUT HOLD BPUT', 'TADD BGET HOLD', 'BGET'], tier='thorough', BUFCAP=2, w=60),
     fam('buffer-put-blocked', ['BPUT BPUT', 'HOLD BGET', 'TADD BPUT'], BUFCAP=1, w=8),
     fam('oq-both-ends', ['OPUT OPUT HOLD OPUT', 'TADD OGET HOLD OGET', 'OGET'], QCAP=1, w=3),
+    fam('oq-granted-getter-stopped', ['HOLD OPUT', 'OGET', 'OGET', 'HOLD STOP1'], QCAP=2, w=3),
+    fam('pq-granted-getter-interrupted', ['HOLD QPUT', 'QGET', 'QGET', 'HOLD INTR1'], QCAP=2, PRIOSYM=1, w=5),
+    fam('pool-granted-waiter-stopped', ['PACQ HOLD PRELALL', 'PACQ YIELD', 'PACQ YIELD', 'HOLD STOP1'], POOLCAP=1, w=4),
+    fam('buffer-granted-getter-stopped', ['HOLD BPUT', 'BGET', 'BGET', 'HOLD STOP1'], BUFCAP=2, w=6),
     fam('pq-cancel-wakes-putter', ['QPUT QPUT HOLD', 'HOLD QCANCEL', 'HOLD QPUT QGET'], QCAP=1, w=3),
     fam('pq-both-ends', ['QPUT QPUT QPUT HOLD', 'HOLD QGET QGET', 'TADD QGET QCANCEL'], QCAP=2, w=4),
     fam('resource-4-coincidences', ['ACQ HOLD REL', 'TADD ACQ HOLD REL', 'TADD ACQ HOLD REL', 'ACQ REL'], tier='thorough', PRIOSYM=1, w=60),
@@ -169,6 +173,7 @@ FAMILIES['C12'] = [
     fam('oq-both-ends', ['OPUT OPUT HOLD OPUT', 'TADD OGET HOLD OGET', 'OGET'], QCAP=1, w=3),
     fam('oq-both-ends', ['OPUT OPUT HOLD OPUT', 'TADD OGET HOLD OGET', 'OGET'], QCAP=1, witness=True, w=3),
     fam('oq-null-and-order', ['OPUT OPUT OPUT OPUT', 'HOLD OGET OGET', 'OGET OGET'], QCAP=0, w=4),
+    fam('oq-duplicates-and-null', ['OPUT OPUT OPUT OPUT OPUT OPUT HOLD', 'HOLD OGET OGET OGET HOLD OGET OGET OGET'], QCAP=-1, w=3),
     fam('oq-unlimited', ['OPUT OPUT OPUT', 'OGET HOLD OGET', 'TADD OGET'], QCAP=-1, w=3),
     fam('oq-consumer-interrupted', ['HOLD OPUT', 'OGET', 'OGET', 'HOLD INTR1'], QCAP=2, w=4),
     fam('oq-producer-stopped', ['OPUT OPUT OPUT', 'HOLD STOP0', 'HOLD OGET OGET'], QCAP=1, w=4),
